@@ -477,3 +477,30 @@ def measure_documents(draw, MP):
         rows.append(_row([{'k': 'bar', 't': '==', 'e': '==', 'cat': 'BARLINES'} for _ in range(width())]))
     rows.append(_row([G.op_cell('*-') for _ in range(width())]))
     return {'types': types, 'rows': rows, 'profile': 'measures', 'pickup': pickup, 'final_barline': final}
+
+
+def long_document(nrows=1300, seed=1, with_text=True):
+    """a plain but LONG score (one **kern spine of notes without accidentals, rests and barlines, optionally a **text
+    spine): depth of the spine tree == number of rows, which random documents never reach"""
+    types = [KERN] + (['**text'] if with_text else [])
+    rows = [_row([G.header_cell(t) for t in types])]
+    rows.append(_row([{'k': 'interp', 't': '*clefG2', 'e': '*clefG2', 'cat': 'CLEF', 'sig': 'clef'}] + [G.nullinterp_cell() for _ in types[1:]]))
+    letters = 'cdefgab'
+    for i in range(nrows):
+        if i % 9 == 8:
+            b = {'k': 'bar', 't': '=%d' % (i // 9 + 1), 'e': '=', 'cat': 'BARLINES'}
+            rows.append(_row([dict(b) for _ in types]))
+            continue
+        j = (i * 7 + seed) % 23
+        if j == 0:
+            n = {'dur': ['4'], 'p': 'r', 'acc': '', 'sigs': []}
+        else:
+            L = letters[(i + seed) % 7]
+            n = {'dur': [['4'], ['8'], ['2', '.'], ['16']][i % 4], 'p': (L if j % 2 else L.upper()) * (1 + j % 3), 'acc': '', 'sigs': [['L'], [], ['J'], [';']][(i // 3) % 4]}
+        cells = [G.note_cell_from([n], [None])]
+        cells[0]['lay'] = [[[s_, 'post'] for s_ in n['sigs']]]
+        for _ in types[1:]:
+            cells.append({'k': 'text', 't': 'la%d' % i, 'e': 'la%d' % i, 'cat': 'LYRICS'} if i % 2 else G.null_cell())
+        rows.append(_row(cells))
+    rows.append(_row([G.op_cell('*-') for _ in types]))
+    return {'types': types, 'rows': rows, 'profile': 'long'}
